@@ -19,6 +19,14 @@ for d in sorted(glob.glob(os.path.join(ROOT, "seeded", "*"))):
         earlier.setdefault(m.get("property", os.path.basename(d).split("-")[0]), []).append(f"- {nm}: {what}")
 
 NATURES = {
+    "4": "a defect visible only for ONE element / float type (f32 but not f64, String but not integers, unsigned but not signed) or only through generic / "
+         "trait dispatch; a defect in the PAYLOAD of an error or in a rarely read accessor (sample_sem, sample_std_dev, percent, width, left/right) rather "
+         "than in the interval itself; a defect that needs LARGE sizes or counts (n above 10^5, above 2^24 in f32, above 2^32) or very SMALL ones (n = 2, "
+         "k = 2, exactly the minimum admissible input); a defect that only shows when the operands of a binary operation are in a particular ORDER or "
+         "are the SAME object (a + a, a.relative_to(&a), merging a state with a clone of itself); a defect in Default / Clone / From / TryFrom / "
+         "FromIterator / Hash implementations; a defect that depends on the sign of zero, on infinities as data or probes, or on values next to a power "
+         "of two; a defect in how an EMPTY input or an empty partial state is treated; a performance-motivated rewrite (sorting replaced by selection, "
+         "early exit, caching, chunked or SIMD-style accumulation, integer arithmetic replacing floating point) that is right on the happy path only.",
     "3": "a defect in an ERROR path or a rarely taken branch (state modified before an error is returned, a wrong payload in an error, an early return that skips "
          "an update); a defect that needs TWO calls to cooperate (the first leaves something behind - a cache, a counter, a sign, a stale field - and the second "
          "misbehaves); a defect confined to ONE call style when several exist (trait method vs inherent method, by-reference vs by-value, iterator vs slice, "
